@@ -922,6 +922,20 @@ pub fn gen_c10(thorough: bool, rng: &mut Rng, out: &mut Vec<String>) {
                 }
             }
         }
+        // every eight-byte real of the stream replaced by boundary bit patterns (largest exponent with
+        // mantissas that round up, smallest, unnormalised, denormalised, negative)
+        for (off, len) in spans.iter() {
+            if base[*off + 3] == 5 {
+                for k in 0..(len - 4) / 8 {
+                    for pat in [0x7FFF_FFFF_FFFF_FFFFu64, 0x7FFF_FFFF_FFFF_FFFC, 0x7FFF_FFFF_FFFF_FFFB, 0xFFFF_FFFF_FFFF_FFFF, 0x7F10_0000_0000_0000, 0x0010_0000_0000_0000,
+                                0x0000_0000_0000_0001, 0x00FF_FFFF_FFFF_FFFF, 0x0001_0000_0000_0000, 0x4000_0000_0000_0001, 0x8000_0000_0000_0000, 0x3FFF_FFFF_FFFF_FFFF] {
+                        let mut b = base.clone();
+                        b[*off + 4 + 8 * k..*off + 12 + 8 * k].copy_from_slice(&pat.to_be_bytes());
+                        push(out, &b);
+                    }
+                }
+            }
+        }
         // byte noise
         for _ in 0..(if thorough { 60 } else { 15 }) {
             let mut b = base.clone();
